@@ -26,6 +26,8 @@ SCHEMAS = {
     "Count": {"type": "integer"},
     "MaybeItem": {"allOf": [R("Item")], "nullable": True},
     "Err": {"type": "object", "properties": {"message": {"type": "string"}}},
+    "Shade": {"type": "string", "enum": ["light", "dark-blue", "RED"]},
+    "Level": {"type": "integer", "enum": [1, 2, 3]},
     "MaybeOpt": {"type": "object", "nullable": True, "properties": {"c": {"type": "boolean"}}},   # {} conforms and is not null
     "MaybeItemList": {"type": "array", "nullable": True, "items": R("Item")},                    # [] conforms and is not null
 }
@@ -140,6 +142,9 @@ RESP_KINDS = {
     "json-array-inline-b": (_j({"type": "array", "items": {"type": "object", "required": ["q"], "properties": {"q": {"type": "integer"}, "r": {"type": "string"}}}}),
                             [_jb([{"q": 1, "r": "y"}, {"q": 2}])]),
     "json-inline-object": (_j(INLINE_OBJ), [_jb({"a": "x", "n": 3}), _jb({})]),
+    # the whole body is a named enum: the annotated type is the enum class, not its base type
+    "json-enum-ref": (_j(R("Shade")), [_jb("light"), _jb("dark-blue")]),
+    "json-int-enum-ref": (_j(R("Level")), [_jb(2)]),
     "union2": (_j(UNION2), [_jb(ITEM_BODIES[1]), _jb(OTHER_BODIES[0])]),
     "union3": (_j(UNION3), [_jb(ITEM_BODIES[0]), _jb(OTHER_BODIES[1]), _jb(THIRD_BODIES[0])]),
     "text-plain": ({"text/plain": {"schema": {"type": "string"}}}, [("text/plain; charset=utf-8", "héllo".encode(), "héllo")]),
